@@ -60,5 +60,7 @@ FragSeeds ==
 MCSeeds == (IF WithPlumb THEN PlumbSeeds ELSE {}) \cup (IF WithFrag THEN FragSeeds ELSE {})
 
 MCScenariosOf(s) ==
-  {x \in {[s EXCEPT !.text = t] : t \in SeqsUpTo(Alphabet(s.enc, s.alpha), s.maxlen)} : Sensible(x)}
+  {x \in {[s EXCEPT !.text = t] : t \in SeqsUpTo(Alphabet(s.enc, s.alpha)
+                                                  \cup (IF s.enc = "u8" /\ s.bom = "none" /\ s.label = "utf-8" THEN {"bad"} ELSE {}), s.maxlen)}
+     : Sensible(x)}
 =============================================================================
